@@ -231,8 +231,15 @@ def _render_all(env, entries, datas, allowed, labels):
                     labels.add("render_error")
     finally:
         if loop is not None:
-            loop.run_until_complete(loop.shutdown_asyncgens())
-            loop.close()
+            try:
+                # a render that failed half-way leaves async generators behind: finalise them before the loop goes
+                loop.run_until_complete(loop.shutdown_asyncgens())
+                loop.run_until_complete(asyncio.sleep(0))
+                pending = [t for t in asyncio.all_tasks(loop) if not t.done()]
+                if pending:
+                    loop.run_until_complete(asyncio.gather(*pending, return_exceptions=True))
+            finally:
+                loop.close()
 
 
 class _RecData(dict):
